@@ -4,6 +4,7 @@ mod case;
 mod child;
 mod explore;
 mod gen_exp;
+mod gen_lp;
 mod props;
 mod rng;
 mod sx;
